@@ -17,6 +17,7 @@ import EPV.Lemmas.StringsUri
 import EPV.Lemmas.StringsCase
 import EPV.Lemmas.StringsJoin
 import EPV.Lemmas.StringsCollation
+import EPV.Lemmas.StringsCollation2
 import EPV.Lemmas.StringsToken
 import EPV.Lemmas.StringsNumber
 import EPV.Lemmas.StringsNumber2
@@ -698,5 +699,60 @@ theorem codepoints_to_string_items_fails :
 /-- the hypothesis is satisfiable on a non-trivial sequence: an integer, an untyped `66`, a string -/
 example : Strings.cpItemsTrigger [.int 65, .untyped (some 66), .str] = false ∧
     Strings.codepointsToStringItems [.int 65, .untyped (some 66)] = .ok [65, 66] := ⟨rfl, rfl⟩
+
+
+/-! ## F&O §5.5 with a collation, declaratively: collation-equal factors, first position, minimal match
+(`collEq col m t` is `compare(m, t, col) eq 0` of the spec; `CollationManager.find` = the first such
+factor; holds for the collation given as argument and for the parser's default alike) -/
+
+open EPV.FOStrings (Collation) in
+/-- Headline.  Whichever way the collation is chosen (3rd argument or the parser's
+`default_collation`), for all strings:
+* `contains(s,t)` iff some factor `m` of `s` satisfies `compare(m, t) eq 0`;
+* if so, `s = substring-before(s,t) ++ m ++ substring-after(s,t)` for a factor `m` with
+  `compare(m, t) eq 0` — the match is at the FIRST position (no such factor of `s` starts earlier) and
+  it is MINIMAL (every such factor has exactly the length of `t`);
+* if not, both functions return the empty string;
+* `starts-with` / `ends-with` hold iff a prefix / suffix of `s` satisfies `compare(·, t) eq 0`. -/
+theorem collation_match_first_minimal (d : Collation) (c : Option Collation) (s t : Str) :
+    let col := FOStrings.chosenCollation d c
+    (Strings.fnContains d c (some s) (some t) = true ↔
+        ∃ b m a, s = b ++ m ++ a ∧ FOStrings.compareC col m t = 0) ∧
+    (Strings.fnContains d c (some s) (some t) = true →
+        (∃ m, FOStrings.compareC col m t = 0 ∧
+          s = Strings.fnSubstringBefore d c (some s) (some t) ++ m ++ Strings.fnSubstringAfter d c (some s) (some t)) ∧
+        ∀ b' m' a', s = b' ++ m' ++ a' → FOStrings.compareC col m' t = 0 →
+          (Strings.fnSubstringBefore d c (some s) (some t)).length ≤ b'.length ∧ m'.length = t.length) ∧
+    (Strings.fnContains d c (some s) (some t) = false →
+        Strings.fnSubstringBefore d c (some s) (some t) = [] ∧ Strings.fnSubstringAfter d c (some s) (some t) = []) ∧
+    (Strings.fnStartsWith d c (some s) (some t) = true ↔ ∃ m a, s = m ++ a ∧ FOStrings.compareC col m t = 0) ∧
+    (Strings.fnEndsWith d c (some s) (some t) = true ↔ ∃ b m, s = b ++ m ∧ FOStrings.compareC col m t = 0) := by
+  have hc : Strings.callCollation d c = FOStrings.chosenCollation d c := by cases c <;> rfl
+  simp only [Strings.fnContains, Strings.fnSubstringBefore, Strings.fnSubstringAfter, Strings.fnStartsWith,
+    Strings.fnEndsWith, Strings.argDefault, hc]
+  generalize FOStrings.chosenCollation d c = col
+  refine ⟨Strings.containsC_iff col s t, ?_, ?_, Strings.startsWithC_iff col s t, Strings.endsWithC_iff col s t⟩
+  · intro h
+    constructor
+    · obtain ⟨m, _, hk, hcat⟩ := Strings.before_after_concat_C col s t h
+      exact ⟨m, (Strings.collEq_iff col m t).mpr hk, hcat.symm⟩
+    · intro b' m' a' hs hm
+      exact Strings.match_first_minimal col s t h b' m' a' hs hm
+  · intro h
+    unfold Strings.containsC at h
+    rw [Strings.pyIn_eq_find] at h
+    unfold Strings.substringBeforeC Strings.substringAfterC Strings.findC
+    cases hf : Strings.pyFind (Strings.strxfrm col t) (Strings.strxfrm col s) with
+    | none => exact ⟨rfl, rfl⟩
+    | some i => simp [hf] at h
+
+/-- the hypotheses are satisfiable and the statement is not about the code-point collation only:
+under the HTML ASCII case-insensitive collation (here as parser default, 2-argument call) `'Y'` is
+found in `'aybY'` at its first, lower-case occurrence -/
+example : Strings.fnContains .htmlAscii none (some [97, 121, 98, 89]) (some [89]) = true ∧
+    Strings.fnSubstringBefore .htmlAscii none (some [97, 121, 98, 89]) (some [89]) = [97] ∧
+    Strings.fnSubstringAfter .htmlAscii none (some [97, 121, 98, 89]) (some [89]) = [98, 89] ∧
+    FOStrings.compareC .htmlAscii [121] [89] = 0 ∧
+    Strings.fnContains .codepoint none (some [97, 121, 98]) (some [89]) = false := by decide
 
 end EPV.C09
